@@ -637,4 +637,33 @@ Proof.
     intros Hk2 Hs. rewrite Ecs. apply B; auto.
 Qed.
 
+
+Lemma dw_handle_delete_res c f tmp p st a nd : snd (dw_handle c f tmp 2 p st) = DwOk a nd -> a = false.
+Proof.
+  unfold dw_handle. simpl. destruct (sys_remove_all c f p) as [f1 r]. simpl.
+  destruct (is_err r); intros H; inversion H. reflexivity.
+Qed.
+
+Lemma is_prefix_len (a b : list bytes) : is_prefix a b -> (length a <= length b)%nat.
+Proof. intros [y ->]. rewrite app_length. lia. Qed.
+
+Lemma off_short tmp pre bn cs : (length cs <= length pre)%nat -> off tmp pre bn cs.
+Proof.
+  intros H. split; intro P; apply is_prefix_len in P; rewrite app_length in P; simpl in P; lia.
+Qed.
+
+Lemma off_of tmp pre bn cs : ~ is_prefix (pre ++ [bn]) cs -> ~ In tmp cs -> off tmp pre bn cs.
+Proof.
+  intros H1 H2. split; auto. intros [y E]. apply H2. rewrite E. apply in_or_app. left. apply in_or_app. right. left. auto.
+Qed.
+
+Lemma off_removelast tmp pre bn cs : off tmp pre bn cs -> off tmp pre bn (removelast cs).
+Proof.
+  intros [H1 H2].
+  assert (G : forall x, is_prefix x (removelast cs) -> is_prefix x cs).
+  { intros x [y E]. destruct cs as [|c0 r0] using rev_ind; [exists y; exact E|].
+    rewrite removelast_last in E. exists (y ++ [c0]). rewrite E, app_assoc. reflexivity. }
+  split; intro P; [apply H1|apply H2]; apply G; exact P.
+Qed.
+
 End Dw.
